@@ -458,6 +458,10 @@ orc_x86_get_shift (OrcX86Target *t, int size)
 static inline orc_bool
 has_valid_alignment (const OrcVariable *var)
 {
+  /* sizes and alignments come from the application or the .orc text as they
+   * are: INT_MIN % -1 traps, x % 0 traps */
+  if (var->size <= 0 || var->alignment <= 0)
+    return FALSE;
   return (var->alignment % var->size) == 0;
 }
 
